@@ -72,6 +72,14 @@ class _G:
         mk = lambda o: f"lambda {a}: (lambda q: q {o} {a})({m}){tail}"  # noqa: E731
         return mk(o1), mk(o2)
 
+    def attr_pair(self, op, a):
+        """two lambdas with the same argument, the same SET of names and constants, first mentioned in a different order"""
+        self.n += 1
+        m = 1000 + self.n * 17
+        k = self.draw(st.integers(2, 9))
+        tail = " > 0" if op == "Where" else ""
+        return (f"lambda {a}: ({a}.real + {k}) // ({a}.imag + {m}){tail}", f"lambda {a}: ({a}.imag + {k}) // ({a}.real + {m}){tail}")
+
     def twin(self, op, lam_text, a):
         """a lambda with the same argument, names and constants as lam_text (`a * k + m`) but another meaning (`a * m + k`)"""
         import re
@@ -365,14 +373,16 @@ def _unit(draw):
         # mis-attributable lambdas that differ only inside a nested lambda which uses the outer argument
         o = g.op()
         a = draw(st.sampled_from(ARGS))
-        l1, l2 = g.nested_pair(o, a)
+        l1, l2 = g.nested_pair(o, a) if draw(st.booleans()) else g.attr_pair(o, a)
+        if draw(st.booleans()):
+            l1, l2 = l2, l1
         flag = draw(st.booleans())
         if pick == 57:
             body = f"FLAG = {flag}\nq = ds.{o}(({l1}) if FLAG else ({l2}))"
         else:
             body = f"def ident(z):\n    return z\nq = ds.{o}(ident({l1})).{o}({l2})"
         sup = False
-        label = "mis-attributable-lambdas-differing-in-a-nested-lambda"
+        label = "mis-attributable-lambdas-differing-in-a-nested-lambda-or-in-name-order"
     elif pick in (54, 55, 56):
         # mis-attributable lambdas that use a variable of the enclosing function (their code depends on where it is compiled)
         o = g.op()
